@@ -86,7 +86,7 @@ def run(ctx):
     if ctx.replay:
         env["VERIF_REPLAY"] = os.path.abspath(ctx.replay)
     else:
-        env["VERIF_SCENARIOS"] = 110 if ctx.thorough else 27
+        env["VERIF_SCENARIOS"] = 110 if ctx.thorough else 24
     rc, log, out = ctx.run_harness(binary, "TestVerifC07", env, timeout=3000)
     if rc != 0:
         ctx.oblige("harness-runs", False, log[-1500:])
@@ -202,6 +202,8 @@ def run(ctx):
             edges["tick-without-connection-keeps-queue"] += 1
         if l.startswith("ret=err:db-busy"):
             edges["add-failed-database-busy"] += 1
+        if l.startswith("ret=err:ctx-cancelled"):
+            edges["add-rolled-back-context-cancelled"] += 1
         if " q=" in l and l.startswith("sent=[m") and "refs=#0:" not in l:
             edges["gossip-with-refs"] += 1
     for i, l in enumerate(ops):
@@ -215,7 +217,7 @@ def run(ctx):
         for f in v.get("features", []):
             if f in ("equal-height-large-diff-on-page>=1", "behind-peer-wide-page0", "many-refs-per-clock", "disjoint-branches", "connection-flap-then-new-transactions"):
                 edges["scenario:" + f] += 1
-    need += ["scenario:equal-height-large-diff-on-page>=1", "scenario:behind-peer-wide-page0", "node-restart", "add-failed-database-busy", "scenario:connection-flap-then-new-transactions"]
+    need += ["scenario:equal-height-large-diff-on-page>=1", "scenario:behind-peer-wide-page0", "node-restart", "add-failed-database-busy", "add-rolled-back-context-cancelled", "scenario:connection-flap-then-new-transactions"]
     missing_edges = [e for e in need if edges[e] == 0] if not ctx.replay else []
     ctx.oblige("generator-reaches-the-protocol-edges(quick tier)", not missing_edges, f"edges not reached: {missing_edges}; reached: {dict(edges)}")
 
